@@ -5,6 +5,9 @@ import (
 	_ "fxmc/props/c01"
 	_ "fxmc/props/c02"
 	_ "fxmc/props/c03"
+	_ "fxmc/props/c04"
+	_ "fxmc/props/c05"
+	_ "fxmc/props/c06"
 	_ "fxmc/props/c07"
 	_ "fxmc/props/c13"
 )
